@@ -80,8 +80,10 @@ PROPS["C13"] = {
     "trusted": READ_TRUSTED + ["the real limited reader stops inflating once the limit is exceeded; the model inflates fully and compares (same verdict; the amount inflated before stopping is not modelled)"],
 }
 PROPS["C06"] = {
-    "modules": ["Gws.Props.C06"],
-    "theorems": ["Close.closeReply_spec", "Close.closeReply_table", "Close.closeReply_bad_reason", "Close.local_close_frame", "Close.local_close_length"],
+    "modules": ["Gws.Props.C06", "Gws.Props.C06Conc"],
+    "theorems": ["Close.closeReply_spec", "Close.closeReply_table", "Close.closeReply_bad_reason", "Close.local_close_frame", "Close.local_close_length",
+                 "Conc.at_most_one_close_frame", "Conc.close_frame_by_winner", "Conc.nothing_after_close_frame", "Conc.close_frame_implies_closed",
+                 "Conc.closed_is_monotone", "Conc.closed_iff_winner", "Conc.lock_mutual_exclusion", "Conc.writes_after_close_rejected", "Conc.local_close_wins_or_closed"],
     "suites": ["read", "conn"],
     "trusted": ["sync.Mutex critical sections and atomic CAS are atomic; each frame is handed to the transport in one Write (Facts: lock/CAS structure, transport write sites)",
                 "the scheduling hook only makes an interleaving deterministic that the unhooked code can also take"],
@@ -126,6 +128,43 @@ PROPS["C02"] = {
     "trusted": ["klauspost/compress/flate: the compressor emits RFC 1951 whose back-references stay within its window and dictionary (Codec law L2), the inflater implements RFC 1951 (L3) - SAMPLED, not proved: every compressed frame in the read/sess/write suites goes through the real library and (read, write) through the Lean inflater",
                 "which frames are compressed and which window update follows which write: Session model, tied by the sess suite (all four windows read back through the accessor hook at quiescence)"],
     "clauses_without_theorem": ["the DEFLATE library's own conformance (L2/L3): sampled by the suites, not proved"],
+}
+
+CONC_TRUSTED = ["a c.mu Lock..Unlock region is atomic w.r.t. other regions of c.mu; atomic.CompareAndSwapUint32 is atomic; each frame is handed to the transport in ONE Write call (Facts: doWriteLocks, doWriteFileLocks, doWriteClosedCheckUnderLock, bcClosedCheckUnderLock, closedOnlySetByCas, writeCloseOnlyBehindCas, transportWriteSites)",
+                "the transition system's atomic actions are the code's scheduling points (verifSched hooks); a schedule forced through them is one the unhooked code can also take",
+                "goroutine scheduling, wall-clock time, stalls: a stall is the environment never scheduling an actor; no fairness is assumed"]
+PROPS["C05"] = {
+    "theorems": ["Writer.genHeader_decodes", "Writer.genFrame_decodes", "Writer.genFrame_wire", "Writer.genFrame_decodes_compressed", "Writer.stripTail_restore",
+                 "Writer.genFrame_inflates", "Writer.controlFrame_decodes", "Writer.genFrame_rejects", "Writer.doWrite_rejected", "Writer.doWrite_window",
+                 "Writer.writeFile_frames_plain", "Writer.writeFile_frames_compressed", "Writer.writeFile_frames", "Writer.writeFile_inflates", "Writer.writeFile_empty_reader"],
+    "suites": ["write"],
+    "trusted": ["the compressor's output is a parameter: the theorems hold for every output and every way it is cut into Write calls; that it inflates to the payload is the Codec law hypotheses hL1/hL2 (klauspost conformance, sampled: every compressed frame of the suite is inflated by the Lean inflater against the unbounded RFC 7692 history with max distance <= 2^bits)",
+                "bytes.Buffer / copy semantics as modelled (goCopy back-fill); the mask key source is an input",
+                "binary.BigEndian / LittleEndian as modelled"],
+}
+PROPS["C07"] = {
+    "theorems": ["Conc.callback_shape", "Conc.open_close_at_most_once", "Conc.reader_done_closed_once", "Conc.messages_in_wire_order"],
+    "suites": ["conn", "read", "faults:session", "racy:parallel-handlers"],
+    "trusted": CONC_TRUSTED + ["the order and payloads of the callbacks between open and close are those of the read-path model (C03)",
+                               "parallel handling (channel semaphore) and recover() semantics are NOT in the transition system: bounded parallelism and panic absorption are observed by the suites only"],
+    "clauses_without_theorem": ["with parallel handling never more than the configured number of handlers run concurrently (observed)",
+                                "a panic in a handler is absorbed by the recovery function without losing later messages (observed; Facts.dispatchDefersRecovery)"],
+}
+PROPS["C08"] = {
+    "theorems": ["Conc.wire_is_whole_frames", "Conc.partial_only_by_failed_write", "Conc.file_frames_contiguous", "Conc.data_frames_owned_by_writers",
+                 "Conc.success_iff_one_message", "Conc.content_rejected_no_bytes"],
+    "suites": ["conn", "racy"],
+    "trusted": CONC_TRUSTED + ["'free of data races' is a statement about the Go memory model that no functional model expresses: validated by the race detector on the racy suite (not part of the proof)"],
+    "clauses_without_theorem": ["library-internal shared state touched by writers is free of data races (race detector on concurrent scenarios: validation only)"],
+}
+PROPS["C09"] = {
+    "theorems": ["Conc.transport_closed_implies_closed", "Conc.onclose_once_nonnil", "Conc.no_deadlock", "Conc.bounded_run", "Conc.acts_are_bounded",
+                 "Conc.teardown_complete", "Conc.closer_blocked_behind_stalled_writer"],
+    "suites": ["conn", "faults"],
+    "trusted": CONC_TRUSTED + ["handshake fault paths, goroutine census, wall-clock bounds and real socket behaviour are runtime: observed by the faults suite (fault injected at every transport operation of a scripted session and of both handshakes), not proved"],
+    "clauses_without_theorem": ["handshake functions return an error and close the transport on any fault (observed by fault enumeration)",
+                                "no goroutine left behind (observed: goroutine census after every fault case)",
+                                "a locally requested close completes in bounded time while another writer is stalled: FALSE of gws (known finding KF-C09-stall-close; model witness closer_blocked_behind_stalled_writer)"],
 }
 
 EXTRA = {}
